@@ -95,6 +95,19 @@ def measureNumberMapP (p : PartD) (x : Int) : Option (Option Int) :=
 def metricalMapP (p : PartD) (x : Int) : Option (Int × Option Int) :=
   if raisesP p then none else metricalFromTable (measureTableP p) (bars p) x
 
+-- ------------------------------------------------------------------ what the `np.round` of the pickup rule is there for
+
+/-- storing a float into an integer array (`measures[0][0] = <float>`): numpy truncates toward zero.  This is NOT
+    what the pickup rule does (it rounds first, `pickupStart`); it is here so that Props/C10Exact.lean can state what
+    the rounding buys: `beats_per_bar * divs_per_beat` carries float noise at realistic divisions (480, 120, 7, ...). -/
+def truncToZero (r : Rat) : Int := if 0 ≤ r then r.floor else -((-r).floor)
+
+/-- the pickup rule WITHOUT the rounding (the code before fix C10-8): the corrected start is truncated -/
+def pickupStartTrunc (s e : Int) (beats0 d : Option Rat) : Int :=
+  match beats0, d with
+  | some b, some d => if ((e - s : Int) : Rat) < b * d then truncToZero ((e : Rat) - b * d) else s
+  | _, _ => s
+
 -- ------------------------------------------------------------------ sortedness (what the table builders need of `iter_all`)
 
 /-- the start times are in non-decreasing order -/
